@@ -269,6 +269,12 @@ impl Prop for C17Prop {
                         return Some("unused-check-loses-uses-under-if");
                     }
                 }
+                // the strict spelling unrolls recursion until the evaluator's depth limit
+                Some(Err(e)) if e.contains("stack limit exceeded") => {
+                    if crate::props::c14::has_recursive_function(src) {
+                        return Some("unused-check-loses-uses-under-if");
+                    }
+                }
                 Some(Err(_)) => {}
                 // the strict spelling of a recursive function never stops unrolling: for those
                 // programs the clause is replaced by "the program has a recursive function", whose
